@@ -157,6 +157,8 @@ inductive Op where
   | adPoll (a : String) (call : String)     -- the adapter method is entered; the inner body follows
   | adEnd (a : String) (result : String)    -- the inner returns `result`; the adapter method returns
   | adDrop (a : String)                     -- the adapter is dropped
+  | closeUnder                              -- drop the scope / collector guard beneath the still-open local spans
+  | collectUnder (x : String)               -- `collector.collect()` while local spans recorded in it are still open
 deriving Repr, Inhabited
 
 structure Stats where
@@ -458,6 +460,42 @@ def Sys.adEnd (s : Sys) (t : Nat) (a result : String) : Sys × Obs :=
       else ({ s1 with adapters := assocSet s1.adapters a { ad with inCall := none } }, .ok)
   | _, _ => (s, .badOp "unknown adapter or no guard")
 
+/-- the local-span guards on top of the guard stack, the first other guard beneath them, and
+    what lies below that -/
+def splitOpen : List Guard → Option (List Guard × Guard × List Guard)
+  | [] => none
+  | .localSpan h :: gs =>
+    match splitOpen gs with
+    | some (ls, g, rest) => some (.localSpan h :: ls, g, rest)
+    | none => none
+  | g :: gs => some ([], g, gs)
+
+/-- a scope or collector guard is released while local spans recorded in its span line are
+    still open (the one departure from reverse-order release that the API documents: the open
+    spans are closed at that instant).  Their handles go stale: with no span line left on the
+    stack `exit_span` does nothing.  Only modelled when that line is the thread's only one — under
+    an outer line the stale `exit_span` trips a `debug_assert`. -/
+def Sys.closeUnder (s : Sys) (t : Nat) : Sys × Obs :=
+  let th := s.th t
+  match splitOpen th.guards with
+  | none => (s, .badOp "no scope under the open local spans")
+  | some (ls, g, rest) =>
+    if th.stack.lines.length ≠ 1 then (s, .badOp "not the only span line") else
+    match g with
+    | .scope (some _) | .collector (some _) => ((s.setTh t { th with guards := ls ++ rest }).closeGuard t g, .ok)
+    | _ => (s, .badOp "no-op guard")
+
+def Sys.collectUnder (s : Sys) (t : Nat) (x : String) : Sys × Obs :=
+  let th := s.th t
+  match splitOpen th.guards with
+  | some (ls, .collector (some epoch), rest) =>
+    if th.stack.lines.length ≠ 1 then (s, .badOp "not the only span line") else
+    let (stack, res) := th.stack.unregisterAndCollect epoch
+    let s := s.setTh t { th with stack := stack, guards := ls ++ rest }
+    let (now, c) := (s.ctr t).now
+    ({ (s.putCtr t c) with lspans := assocSet s.lspans x ⟨(res.getD ([], none)).1, now⟩ }, .ok)
+  | _ => (s, .badOp "no collector under the open local spans")
+
 def exec (s : Sys) (t : Nat) (op : Op) : Sys × Obs :=
   let th := s.th t
   match op with
@@ -644,6 +682,8 @@ def exec (s : Sys) (t : Nat) (op : Op) : Sys × Obs :=
       match ad.span with
       | some sv => (s.dropSpanVal t sv, .ok)
       | none => (s, .ok)
+  | .closeUnder => s.closeUnder t
+  | .collectUnder x => s.collectUnder t x
 
 /-- a program: operations tagged with the logical thread that performs them -/
 abbrev Program := List (Nat × Op)
